@@ -328,8 +328,9 @@ def constructors_fingerprint(seeds):
         y = EVQEIndividual.add_random_layers(x, 2, True, s)
         p = EVQEPopulation.random_population(2, 2, 4, True, s)
         j = random_job_shop_scheduling_instance("i", 3, 3, {0.34: 0.5, 0.67: 0.25, 1.0: 0.25}, {1: 0.5, 2: 0.25, 3: 0.25}, s)
+        j2 = random_job_shop_scheduling_instance("sparse", 2, 6, 0.34, {1: 0.5, 4: 0.5}, s)  # machines without any operation
         out.append([repr(corr_C18.render(l0)), repr(corr_C18.render(l1)), repr(G.indiv_struct(x)), repr(G.indiv_struct(y)), repr([G.indiv_struct(i) for i in p.individuals]),
-                    repr(corr_C18.render(j))])
+                    repr(corr_C18.render(j)) + repr(corr_C18.render(j2))])
     return json.dumps(out)
 
 
